@@ -52,20 +52,20 @@ func NewKeystore(store datastore.Datastore) (*Keystore, error) {
 
 // HasKey checks whether a given key ID exist in the keystore.
 func (k *Keystore) HasKey(ctx context.Context, id string) (bool, error) {
-	storedKey, ok := k.cache.Peek(id)
-
-	if ok == false {
-		value, err := k.store.Get(ctx, datastore.NewKey(id))
-		if err != nil {
-			return false, errmsg.ErrKeyNotInKeystore.Wrap(err)
-		}
-
-		if storedKey != nil {
-			k.cache.Add(id, base64.StdEncoding.EncodeToString(value))
-		}
+	if storedKey, ok := k.cache.Peek(id); ok && storedKey != nil {
+		return true, nil
 	}
 
-	return storedKey != nil, nil
+	value, err := k.store.Get(ctx, datastore.NewKey(id))
+	if err != nil {
+		return false, errmsg.ErrKeyNotInKeystore.Wrap(err)
+	}
+
+	if value != nil {
+		k.cache.Add(id, base64.StdEncoding.EncodeToString(value))
+	}
+
+	return value != nil, nil
 }
 
 // CreateKey creates a new key in the key store.
